@@ -66,12 +66,13 @@ def h1_laws(timeout=60, **kw):
 
 
 # ------------------------------------------------------------------------------- H2
-def h2_rect(timeout=120, **kw):
+def h2_rect(timeout=120, far=False, **kw):
     u = _utils()
     R = 1000
+    T = 2 ** 40 if far else R           # translations and rectangle coordinates: also far beyond pdfminer's INF sentinel (2**31 - 1), where a hull computed from +-INF start values clamps
 
     def fn(ex):
-        m = tuple(ex.real("m%d" % i, -R, R) for i in range(6))
+        m = tuple(ex.real("m%d" % i, -R, R) for i in range(4)) + tuple(ex.real("m%d" % i, -T, T) for i in (4, 5))
         r = tuple(ex.real("r%d" % i, -R, R) for i in range(4))
         ex.assume(r[0] <= r[2])
         ex.assume(r[1] <= r[3])
@@ -85,7 +86,7 @@ def h2_rect(timeout=120, **kw):
 
     def conc(m, info):
         return {"m": [mval(m, z3.Real("m%d" % i)) for i in range(6)], "r": [mval(m, z3.Real("r%d" % i)) for i in range(4)]}
-    return core.run_symx("H2_rect", fn, [u.apply_matrix_rect, u.apply_matrix_pt], {"reals": "|v| <= 1000", "rect": "x0<=x1, y0<=y1"},
+    return core.run_symx("H2_rect", fn, [u.apply_matrix_rect, u.apply_matrix_pt], {"reals": "|v| <= 1000" + (", translation |e|, |f| <= 2^40" if far else ""), "rect": "x0<=x1, y0<=y1"},
                          timeout, concretize=conc)
 
 
@@ -285,7 +286,7 @@ def _split(seqs, n):
 
 
 def jobs(tier):
-    J = [Job("H1_laws", "h1_laws", {}, 60), Job("H2_rect", "h2_rect", {}, 120)]
+    J = [Job("H1_laws", "h1_laws", {}, 60), Job("H2_rect:far", "h2_rect", {"far": True}, 200, "H2_rect"), Job("H2_rect", "h2_rect", {}, 120)]
     if tier == "quick":
         s3 = op_sequences(2, 3)
         for c in ("pos", "neg"):
